@@ -409,6 +409,35 @@ def r04_4(run):
 
 
 # R04.5 ------------------------------------------------------------------
+def r04_7(run):
+    """every authentication leg continues into the bootstrap: the Deferred _do_authenticate returns for a command it queued
+    (AUTHCHALLENGE / AUTHENTICATE) has self._bootstrap chained behind it; the password leg hands over to
+    _do_password_authentication (which chains _bootstrap itself, R04.5).  Otherwise the ready notification never fires."""
+    da = U(run, '_do_authenticate')
+    g = cfg_of(da)
+    rets = [n for n in g.real_nodes() if n.kind == 'stmt' and isinstance(n.ast, ast.Return) and isinstance(n.ast.value, ast.Name)]
+    run.floor('R04.7', 'authentication legs returning a chain', len(rets), 4)
+    for rn in rets:
+        nm = rn.ast.value.id
+        for dn in reaching_defs(g, rn, nm):
+            v = def_value(dn, nm)
+            if not isinstance(v, ast.Call):
+                continue
+            callee = callee_attr(v)
+            if callee in ('queue_command', 'authenticate'):
+                want = 'self._bootstrap'
+            elif dotted(v.func) in ('defer.maybeDeferred', 'maybeDeferred'):
+                want = 'self._do_password_authentication'
+            else:
+                continue
+            chain = g.nodes_where(lambda n: any(isinstance(a, ast.Call) and callee_attr(a) == 'addCallback' and dotted(receiver(a)) == nm and a.args and dotted(a.args[0]) == want
+                                                for a in node_asts(n)))
+            between = g.reachable([s_ for _, s_ in dn.succ], avoid=lambda n: n in chain, follow_exc=False)
+            run.ob('R04.7', da, rn.ast, 'the %s leg continues into %s' % (src(v)[:40], want), rn not in between, slot='leg-continues:%s' % src(v)[:30],
+                   message='_do_authenticate returns the Deferred of %s without %s chained behind it: authentication succeeds but the bootstrap never '
+                           'runs and the ready notification never fires' % (src(v)[:40], want))
+
+
 def r04_5(run):
     ci = proto(run)
     sites = []
@@ -511,12 +540,15 @@ RULES = [
     ('R04.3', '_read_cookie refuses every length != 32 with a non-IOError (length ordering classes)', r04_3),
     ('R04.4', 'dominance: AUTHENTICATE behind compare_via_hash success; HMAC keys/message per control-spec 3.24; taint of the raw cookie', r04_4),
     ('R04.5', 'post_bootstrap fired once: callback last in _bootstrap, errback in _auth_failed; dropped chains end in addErrback(_auth_failed)', r04_5),
+    ('R04.7', 'every authentication leg chains the bootstrap (must-pass-through between the command and the return of its Deferred)', r04_7),
     ('R04.6', 'reaching definitions: cookie path = unescape_quoted_string(regex group)', r04_6),
 ]
 
 from ..selftest import M  # noqa: E402
 F = 'txtorcon/torcontrolprotocol.py'
 MUTANTS = [
+    M('cookie-leg-no-bootstrap', F, "                d = self.authenticate(self._cookie_data)\n                d.addCallback(self._bootstrap)\n", "                d = self.authenticate(self._cookie_data)\n", ['R04.7']),
+    M('safecookie-leg-no-bootstrap', F, "                d.addCallback(self._safecookie_authchallenge)\n                d.addCallback(self._bootstrap)\n", "                d.addCallback(self._safecookie_authchallenge)\n", ['R04.7']),
     M('getinfo-in-connectionMade', F, "        d = self.protocolinfo()\n        d.addCallback(self._do_authenticate)", "        self.queue_command('GETINFO version')\n        d = self.protocolinfo()\n        d.addCallback(self._do_authenticate)", ['R04.1']),
     M('bootstrap-before-proof', F, "                d.addCallback(self._safecookie_authchallenge)\n                d.addCallback(self._bootstrap)", "                d.addCallback(self._bootstrap)\n                d.addCallback(self._safecookie_authchallenge)", ['R04.1']),
     M('cookie-before-safecookie', F, ["            if 'SAFECOOKIE' in methods:\n                txtorlog", "            elif 'COOKIE' in methods:\n                txtorlog"], ["            if 'COOKIE' in methods and 'SAFECOOKIE' in methods:\n                txtorlog", "            elif 'COOKIE' in methods or 'SAFECOOKIE' in methods:\n                txtorlog"], ['R04.2']),
